@@ -77,6 +77,22 @@ def grid_of(text):
     return [[cps(c) for c in ln.split('\t')] for ln in lines]
 
 
+def spoil_document(doc):
+    """A document the API handed out belongs to the caller, who may do to it what it likes: here every token is hidden, the tree is
+    cut into pieces and the measure table emptied.  (Used on documents the harness will not look at again: another import of the
+    same text, in the same process, must not notice.)"""
+    try:
+        for st in doc.tree.stages:
+            for n in st:
+                if n.token is not None:
+                    n.token.hidden = True
+                n.children.clear()
+        doc.measure_start_tree_stages.clear()
+        doc.page_bounding_boxes.clear()
+    except Exception:  # noqa
+        pass
+
+
 def snapshot(doc):
     """Deep digest of everything reachable from the document plus the shared module-level defaults (C14)."""
     import kernpy as kp
